@@ -608,6 +608,62 @@ def ml2_formula(chk):
     chk.absorb_executor(ex)
 
 
+def onshell_relations(chk):
+    """convert_gauge_couplings, convert_BMu, convert_vev, convert_yukawa_couplings_treelevel: the on-shell definitions"""
+    fam = 'on-shell-definitions'
+    chk.functions.update(['MSSMNoFV_onshell::convert_gauge_couplings', 'convert_BMu', 'convert_vev', 'convert_yukawa_couplings_treelevel'])
+    S53 = z3.Real('const_sqrt_5_3')
+    S2 = z3.Real('const_sqrt2')
+    mod = harness_module('h_mssm_conv')
+    dem = demangled(mod)
+    ex = executor(mod, RealDom([(1.2909944487358056, S53), (1.4142135623730951, S2), (0.6, z3.RealVal('3/5'))]),
+                  extra_stubs=dict(S.STRING_MODEL_STUBS), fork_select=False)
+    ex.undefined_handler = ext_handler(dem)
+    ex.div_no_fork = True
+    ex.sqrt_no_fork = True
+    ex.tolerant = True
+    st = X.State()
+    reg = ex.new_region(st, None, 'input', 'model', lazy=True)
+    mp = Ptr(reg.rid, 0)
+    pre = {'EL': ('vx_os', [0]), 'MW': ('vx_os', [1]), 'MZ': ('vx_os', [2]), 'MA': ('vx_os', [3]), 'MM': ('vx_os', [5]), 'MT': ('vx_os', [6]),
+           'vd0': ('vx_par', [3]), 'vu0': ('vx_par', [4])}
+    st, P = probe(ex, st, mp, pre)
+    P = {k: zr(v) for k, v in P.items()}
+    rr = ex.explore(ex.start('vx_convert_sm_part', [mp], st.fork()))
+    rets = [p for p in rr if p.outcome[0] == 'ret']
+    if len(rets) != 1:
+        chk.record('S6', 'gap', 'paths %r' % [p.outcome for p in rr][:3], family=fam)
+        chk.not_covered.append('on-shell definitions not analysed')
+        return
+    p = rets[0]
+    p.outcome = None
+    p.frames = []
+    p.retval = None
+    post = {'g1': ('vx_par', [5]), 'g2': ('vx_par', [6]), 'vd': ('vx_par', [3]), 'vu': ('vx_par', [4]), 'BMu': ('vx_os', [4]),
+            'ymu': ('vx_os', [7]), 'yt': ('vx_os', [8])}
+    st2, Q = probe(ex, p, mp, post)
+    Q = {k: zr(v) for k, v in Q.items()}
+    from . import C02
+    base = list(st2.pc) + [S53 > 0, S53 * S53 == zr(Fr(5, 3)), S2 > 0, S2 * S2 == 2, P['MW'] > 0, P['MZ'] > P['MW'], P['EL'] > 0, P['vd0'] > 0, P['vu0'] > 0,
+                           P['MM'] > 0, P['MT'] > 0]
+    gp2 = zr(Fr(3, 5)) * Q['g1'] * Q['g1']
+    v2 = Q['vd'] * Q['vd'] + Q['vu'] * Q['vu']
+    obl = [('g2 = e/sin(theta_W), sin^2 = 1 - MW^2/MZ^2', z3.And(Q['g2'] > 0, Q['g2'] * Q['g2'] * (P['MZ'] * P['MZ'] - P['MW'] * P['MW']) == P['EL'] * P['EL'] * P['MZ'] * P['MZ'])),
+           ('gY = e/cos(theta_W)', z3.And(Q['g1'] > 0, gp2 * P['MW'] * P['MW'] == P['EL'] * P['EL'] * P['MZ'] * P['MZ'])),
+           ('tree-level MW: g2^2 (vd^2 + vu^2)/4 = MW_pole^2', Q['g2'] * Q['g2'] * v2 == 4 * P['MW'] * P['MW']),
+           ('tree-level MZ: (g\'^2 + g2^2)(vd^2 + vu^2)/4 = MZ_pole^2', (gp2 + Q['g2'] * Q['g2']) * v2 == 4 * P['MZ'] * P['MZ']),
+           ('vu/vd = tan(beta) (the ratio of the input VEVs), vd, vu > 0', z3.And(Q['vu'] * P['vd0'] == P['vu0'] * Q['vd'], Q['vd'] > 0, Q['vu'] > 0)),
+           ('B mu (tan(beta) + cot(beta)) = MA^2', Q['BMu'] * (P['vu0'] * P['vu0'] + P['vd0'] * P['vd0']) == P['MA'] * P['MA'] * P['vu0'] * P['vd0']),
+           ('y_mu vd/sqrt2 = m_mu, y_t vu/sqrt2 = m_t', z3.And(Q['ymu'] * Q['vd'] == S2 * P['MM'], Q['yt'] * Q['vu'] == S2 * P['MT']))]
+    for nm, good in obl:
+        r, m = chk.prove('S6:' + nm.split(':')[0].split(',')[0][:40], base + [z3.Not(good)], timeout_ms=60000, family=fam,
+                         sample={'obligation': 'after the SM part of the conversion: ' + nm})
+        if r == 'sat':
+            chk.violation('S6:' + nm[:30], 'C05:on-shell-definition:' + nm.split(' ')[0], 'on-shell definition violated: ' + nm,
+                          '#!/bin/sh\ncd %s && exec python3-vt -m props.replay_c05 loose\n' % VERIF)
+    chk.absorb_executor(ex)
+
+
 def top_level(chk):
     fam = 'warning-lifetime'
     chk.functions.add('MSSMNoFV_onshell::convert_to_onshell')
@@ -674,6 +730,7 @@ def run(chk):
                         'fixed point of full spectrum calculations: not encodable)', 'the root-finder fallback convert_me2_root_modify (boost toms748)',
                         ]
     index_functions(chk)
+    onshell_relations(chk)
     ml2_formula(chk)
     me2_fpi(chk)
     me2_flag(chk)
